@@ -195,7 +195,7 @@ def explore_single(job: dict) -> dict:
         f = dict(f, line=f"045 {f['frame']}")
         st_, payload, pkt = decode(f["line"])
         nt = (f["verb"], f["code"], f["shape"], f["src"][:2], f["payload"]) if st_ == "ok" else None
-        col.case(nt=nt, classes=_src_classes(f) + [f"decode:{st_.split(':')[0]}"], sample={"line": f["line"], "status": st_})
+        col.case(nt=nt, classes=["single"] + _src_classes(f) + [f"decode:{st_.split(':')[0]}"], sample={"line": f["line"], "status": st_})
         if st_ != "ok":
             return
         check_payload(col, f, payload, pkt)
@@ -216,6 +216,7 @@ def explore_single(job: dict) -> dict:
     return col.dump()
 
 
+BOUNDARY_WORDS = ("7FFF", "8000", "8001", "7FFE", "FFFF", "0000", "EFFF", "31FF")
 BOUNDARY_BYTES = ("00", "01", "63", "64", "65", "7F", "80", "C7", "C8", "C9", "EF", "F0", "FA", "FC", "FF")
 
 
@@ -261,8 +262,9 @@ def explore_mutants(job: dict) -> dict:
 
 
 def sweep_corpus_digits(job: dict) -> dict:
-    """Exhaustive single-digit boundary mutation (each payload hex position set to 0/7/8/F) of up to 3 corpus lines per
-    (verb, code, length) group: every mutant that still decodes is held to the same payload rules."""
+    """Exhaustive single-digit boundary mutation (each payload hex position set to 0/7/8/F) and 16-bit boundary words (each byte-aligned
+    word set to 7FFF/8000/8001/7FFE/FFFF/0000/EFFF/31FF) of up to 3 corpus lines per (verb, code, length) group: every mutant that
+    still decodes is held to the same payload rules."""
     from vf.env.quiet import quiet_logs
     from vf.gen import mutate as M
     from vf.props.c02 import parse_components
@@ -281,18 +283,18 @@ def sweep_corpus_digits(job: dict) -> dict:
     for k in keys:
         for base in groups[k]:
             head, pl = base[:50], base[50:].split(" ")[0]
-            for i, ch in enumerate(pl):
-                for r in "078F":
-                    if r == ch:
-                        continue
-                    ln = head + pl[:i] + r + pl[i + 1:]
-                    f = parse_components(ln[4:])
-                    f["line"] = ln
-                    st_, payload, pkt = decode(ln)
-                    col.case(nt=(f["verb"], f["code"], f["payload"]) if st_ == "ok" else None, classes=["digit-sweep", f"digit-sweep-decode:{st_.split(':')[0]}"],
-                             sample={"line": ln, "status": st_})
-                    if st_ == "ok":
-                        check_payload(col, f, payload, pkt)
+            muts = [pl[:i] + r + pl[i + 1:] for i, ch in enumerate(pl) for r in "078F" if r != ch]
+            # ... and every byte-aligned 16-bit word set to the boundary words of the signed / unsigned / sentinel encodings
+            muts += [pl[:i] + w + pl[i + 4:] for i in range(0, len(pl) - 3, 2) for w in BOUNDARY_WORDS if pl[i:i + 4] != w]
+            for mpl in muts:
+                ln = head + mpl
+                f = parse_components(ln[4:])
+                f["line"] = ln
+                st_, payload, pkt = decode(ln)
+                col.case(nt=(f["verb"], f["code"], f["payload"]) if st_ == "ok" else None, classes=["digit-sweep", f"digit-sweep-decode:{st_.split(':')[0]}"],
+                         sample={"line": ln, "status": st_})
+                if st_ == "ok":
+                    check_payload(col, f, payload, pkt)
     col.note("corpus (verb, code, length) groups swept", len(keys))
     return col.dump()
 
@@ -490,7 +492,7 @@ def run(ctx: Ctx, col: Collector) -> None:
         ctx.floors = [("fuzz-decode:ok", "fuzz", 0.03)]
     else:
         col.note("atheris not importable: coverage-guided campaign skipped")
-    ctx.floors += [("decode:ok", "", 0.2), ("array:n=2-8", "", 0.03), ("mutant-decode:ok", "mutant", 0.3)]
+    ctx.floors += [("decode:ok", "single", 0.5), ("array:n=2-8", "", 0.03), ("mutant-decode:ok", "mutant", 0.3)]
 
 
 def replay(case: dict) -> list[tuple[dict, str]]:
